@@ -2,6 +2,8 @@ package props
 
 import (
 	"fmt"
+	"github.com/goghcrow/yae/parser/ast"
+	"reflect"
 	"testing"
 
 	"github.com/goghcrow/yae/compiler"
@@ -192,6 +194,22 @@ func checkSugarSemantics(c *ProgCase) *Outcome {
 	if e1 != nil {
 		return skip("harness:generated-program-rejected")
 	}
+	// the parsed tree handed to a whole compilation (desugar, check, code generation) is left as
+	// it was parsed: compared, annotations and all, with a second parse of the same text
+	for _, be := range []run.Backend{run.VMSwitch, run.Closure} {
+		en0 := run.NewEngine(be, c.Extra)
+		var parsed, again ast.Expr
+		if p := run.Guard(func() { parsed = en0.E.Parse(sug); again = en0.E.Parse(sug) }); p != nil {
+			return bad("parsing panicked: %s\n src: %s", p.Text, sug)
+		}
+		if !reflect.DeepEqual(parsed, again) {
+			return skip("harness:two-parses-differ")
+		}
+		_ = run.Guard(func() { en0.E.CompileExpr(parsed, run.TypeEnv(c.Env)) })
+		if !reflect.DeepEqual(parsed, again) {
+			return bad("%s: compiling a parsed tree (Expr.CompileExpr) changed the tree it was given\n src: %s\n before: %#v\n after:  %#v", be, sug, again, parsed)
+		}
+	}
 	for _, be := range run.AllBackends {
 		en1 := run.NewEngine(be, c.Extra)
 		o1 := en1.RunSrc(sug, c.Env, c.Vals)
@@ -252,7 +270,7 @@ var c10opt = gen.ProgOpt{Fuel: 4, Partial: true, Sugar: true, Maybe: true, Times
 var c10m = Register(&Prop[ProgCase]{ID: "C10", Name: "sugar-semantics", Gen: genProgCase(c10opt, run.StdHarness), Check: checkSugarSemantics})
 
 func TestC10(t *testing.T) {
-	R.Rule = "structural half: parsed trees from the C08 tree generator (all node kinds nested in all operand positions, any operator table) - desugared tree has only core forms, equals the reference rewrite (names, receiver-first argument order, literal text), desugaring twice changes nothing, the input tree (structure and positions) is untouched; semantic half: generated well-typed programs in sugared notation (?:, method calls, redundant parentheses, operators) against the explicit notation (if(...), f(o, args), no parentheses) in source and against hand-built call trees op(x, y) compiled directly - same inferred type, same value or failure, same host-function trace on every back end; non-trivial = >= 2 sugared nodes with one nested in another's operand, or a method call with a sugared receiver"
+	R.Rule = "structural half: parsed trees from the C08 tree generator (all node kinds nested in all operand positions, any operator table) - desugared tree has only core forms, equals the reference rewrite (names, receiver-first argument order, literal text), desugaring twice changes nothing, the input tree (structure and positions) is untouched; semantic half: generated well-typed programs in sugared notation (?:, method calls, redundant parentheses, operators) against the explicit notation (if(...), f(o, args), no parentheses) in source and against hand-built call trees op(x, y) compiled directly - same inferred type, same value or failure, same host-function trace on every back end; a parsed tree given to a whole compilation (Expr.CompileExpr) is afterwards deep-equal, annotations included, to a second parse of the same text; non-trivial = >= 2 sugared nodes with one nested in another's operand, or a method call with a sugared receiver"
 	R.Assume = []string{"ref.Desugar (harness) is the meaning of the notation"}
 	reportKnown(t, "C10")
 	runRegress(t, "C10")
